@@ -380,10 +380,11 @@ fn write_lines(fmt: i64, eol: i64, lines: &[String]) -> std::path::PathBuf {
     path
 }
 fn file_assert(fmt: i64, path: &std::path::Path, expected: &[Rec]) -> Value {
+    let big = expected.len() > 5000;
     if fmt == 0 {
-        accepts_v(|| assert_jsonl_equals(path, expected))
+        accepts_big(big, || assert_jsonl_equals(path, expected))
     } else {
-        accepts_v(|| assert_csv_equals(path, expected))
+        accepts_big(big, || assert_csv_equals(path, expected))
     }
 }
 /// records i -> (i, i mod 8) (name 8, the long one, at i = 5 when `long_name`), and the expected
@@ -427,6 +428,11 @@ fn accepts_v(f: impl Fn()) -> Value {
     let r1 = catch_unwind(AssertUnwindSafe(&f)).is_ok();
     let r2 = catch_unwind(AssertUnwindSafe(&f)).is_ok();
     if r1 == r2 { Value::Bool(r1) } else { json!("unstable") }
+}
+/// as accepts_v, but a single call when the input is big (the panic message of a failing assertion
+/// formats whole collections)
+fn accepts_big(big: bool, f: impl Fn()) -> Value {
+    if big { Value::Bool(catch_unwind(AssertUnwindSafe(&f)).is_ok()) } else { accepts_v(f) }
 }
 fn accepts(f: impl FnOnce()) -> bool {
     catch_unwind(AssertUnwindSafe(f)).is_ok()
@@ -773,9 +779,9 @@ fn run_more(kind: &str, input: &Value) -> Option<Value> {
                     }
                 }
                 if aid == 0 {
-                    accepts_v(|| assert_collections_equal(&a, &b))
+                    accepts_big(n > 5000, || assert_collections_equal(&a, &b))
                 } else {
-                    accepts_v(|| assert_collections_unordered_equal(&a, &b))
+                    accepts_big(n > 5000, || assert_collections_unordered_equal(&a, &b))
                 }
             }))
         }
@@ -881,10 +887,11 @@ fn run_more(kind: &str, input: &Value) -> Option<Value> {
             let a = zst_vec(n);
             bits(ms.iter().map(|&m| {
                 let b = zst_vec(m);
+                let big = n.max(m) > 5000;
                 if aid == 0 {
-                    accepts_v(|| assert_collections_equal(&a, &b))
+                    accepts_big(big, || assert_collections_equal(&a, &b))
                 } else {
-                    accepts_v(|| assert_collections_unordered_equal(&a, &b))
+                    accepts_big(big, || assert_collections_unordered_equal(&a, &b))
                 }
             }))
         }
@@ -1408,7 +1415,7 @@ fn generate_more(seed: u64, tier: Tier, em: &mut Emitter) {
                 em.case("mockrow", json!([fmt, wh, data, [[0, 1], [1, 3], [0, 5]], 3]), nt, &["exhaustive", "files"]);
             }
         }
-        for n in sizes_upto(if thorough { 65537 } else { 4097 }) {
+        for (idx, n) in sizes_upto(if thorough { 65537 } else { 4097 }).into_iter().enumerate() {
             let mut sets: Vec<(i64, usize)> = vec![(0, 0), (3, 0), (4, 0)];
             for p in boundary_positions(n, if n > 600 { 3 } else { 10 }) {
                 for mode in [1, 2, 5, 6] {
@@ -1419,9 +1426,10 @@ fn generate_more(seed: u64, tier: Tier, em: &mut Emitter) {
                 sets = vec![(0, 0), (4, 0)];
             }
             let sets: Vec<Value> = sets.iter().map(|(m, p)| json!([m, p])).collect();
-            let via_mock = n % 2;
-            let bl = [0usize, 1, 3, 64][n % 4];
-            em.case("filelong", json!([fmt, n % 3, n, bl, via_mock, sets]), n >= 2, &["long", "files"]);
+            // once written by mock_*_file, once by hand with empty lines in between
+            em.case("filelong", json!([fmt, 0, n, 0, 1, sets]), n >= 2, &["long", "files"]);
+            let bl = [1usize, 3, 64, 0, 7][idx % 5];
+            em.case("filelong", json!([fmt, idx % 3, n, bl, 0, sets]), n >= 2, &["long", "files"]);
         }
         if !thorough {
             em.case("filelong", json!([fmt, 0, 65536, 0, 1, [[0, 0], [1, 65535], [5, 32768], [3, 0]]]), true, &["long", "files"]);
